@@ -669,7 +669,7 @@ class Interp:
             self.prog._effect_summaries = s_
         return s_
 
-    def _loop(self, st, fr, kind):
+    def _loop(self, st, fr, kind, it=None):
         self._loop_id += 1
         lid = f'L{getattr(st, "lineno", 0)}'
         assigned = self._assigned_names(st.body)
@@ -706,10 +706,30 @@ class Interp:
                 # only element stores inside the loop: the array keeps the shape it had on entry
                 self.loop_shape[(canon.get(n_, n_), lid)] = fr.env[n_]
         if kind == 'for':
-            it = self.ev(st.iter, fr)
+            it = it if it is not None else self.ev(st.iter, fr)       # (evaluated once: its calls are events)
+            fused = None
+            ca_ = it.single_atom()
+            if ca_ is not None and ca_.kind == 'comp' and ca_.args[0] in ('list', 'gen') and len(ca_.args[2]) == 1:
+                ga_ = ca_.args[2][0].single_atom()
+                if ga_ is not None and ga_.kind == 'tuple' and len(ga_.args) == 1:
+                    # for x in [E(y) for y in IT]: BODY   ==   for y in IT: x = E(y); BODY
+                    inner_ids = {a_.args[-1] for a_ in T.all_atoms(ca_.args[1]).values()
+                                 if a_.kind in ('elem', 'key', 'idx') and a_.args and isinstance(a_.args[-1], str)
+                                 and a_.args[-1].startswith('C')}
+                    if len(inner_ids) <= 1:
+                        cid_ = next(iter(inner_ids), None)
+
+                        def ren(a_, cid_=cid_):
+                            if cid_ is not None and a_.kind in ('elem', 'key', 'idx') and a_.args and a_.args[-1] == cid_:
+                                return Term.of(Atom(a_.kind, *(a_.args[:-1] + (lid,))))
+                            return None
+                        fused = T.subst(ca_.args[1], ren)
+                        it = ga_.args[0]
             info['iter'] = it
             info['trip'] = self._trip(it)
             tgt_val = self._loop_target(it, lid)
+            if fused is not None:
+                tgt_val = (fused, tgt_val[1])
             info['index'] = tgt_val[1]
         # pass 1: discover heap keys written in the body (events not recorded)
         env0, heap0 = dict(fr.env), dict(self.heap)
@@ -796,7 +816,7 @@ class Interp:
                     del self.events[nev:]
                     fr.env, self.heap = dict(env0), dict(heap0)
                     self._loop_id -= 1
-                    return self._loop(st, fr, kind)
+                    return self._loop(st, fr, kind, it=it)
         info['env_exit'] = dict(fr.env)
         info['heap_exit'] = dict(self.heap)
         # after the loop
@@ -815,7 +835,7 @@ class Interp:
 
     def st_For(self, st, fr):
         st = _without_continue(st)
-        it = self.ev(st.iter, fr)
+        it = it0 = self.ev(st.iter, fr)
         from .sva_expr import small_range_items
         rng_items = small_range_items(it)
         if rng_items is not None:
@@ -848,7 +868,7 @@ class Interp:
                 else:
                     items = [v_ for _, v_ in da.args]
                 return self._for_unrolled(st, fr, items)
-        return self._loop(st, fr, 'for')
+        return self._loop(st, fr, 'for', it=(it0 if rng_items is None else None))
 
     def _for_first_match(self, st, fr, items, test, inner, i):
         if i == len(items):
